@@ -5,7 +5,7 @@ from fractions import Fraction
 from vlib.obs import S, Err, guarded, gz, gzlist, gstr, glist, gopt, E_OVERFLOW
 
 PROP = "C20"
-ANCHORS = [('canopen.variable', 'Variable.phys'), ('canopen.variable', 'Variable.desc'), ('canopen.variable', 'Variable.bits'), ('canopen.variable', 'Variable.raw'), ('canopen.variable', 'Bits'), ('canopen.objectdictionary', 'ODVariable.encode_phys'), ('canopen.objectdictionary', 'ODVariable.decode_phys'), ('canopen.objectdictionary', 'ODVariable.encode_desc'), ('canopen.objectdictionary', 'ODVariable.decode_desc'), ('canopen.objectdictionary', 'ODVariable.encode_bits'), ('canopen.objectdictionary', 'ODVariable.decode_bits'), ('canopen.objectdictionary', 'ODVariable.add_value_description'), ('canopen.objectdictionary', 'ODVariable.add_bit_definition')]
+ANCHORS = [('canopen.variable', 'Variable.phys'), ('canopen.variable', 'Variable.desc'), ('canopen.variable', 'Variable.bits'), ('canopen.variable', 'Variable.raw'), ('canopen.variable', 'Bits'), ('canopen.variable', 'Variable.read'), ('canopen.variable', 'Variable.write'), ('canopen.objectdictionary', 'ODVariable.encode_phys'), ('canopen.objectdictionary', 'ODVariable.decode_phys'), ('canopen.objectdictionary', 'ODVariable.encode_desc'), ('canopen.objectdictionary', 'ODVariable.decode_desc'), ('canopen.objectdictionary', 'ODVariable.encode_bits'), ('canopen.objectdictionary', 'ODVariable.decode_bits'), ('canopen.objectdictionary', 'ODVariable.add_value_description'), ('canopen.objectdictionary', 'ODVariable.add_bit_definition')]
 MODEL_VO = ["theories/Model/Codec.vo", "theories/Model/Views.vo"]
 COQ_IMPORTS = "From CV Require Import Model.Codec Model.Views."
 COQ_RUN = "run_views"
@@ -270,6 +270,24 @@ def do_op(var, op, poke=None):
         var.desc = op[1]
     elif k == "get_desc":
         return S(var.desc)
+    elif k == "write":                    # the method route: var.write(value, fmt)
+        inner = op[2]
+        value = pyval(inner[1]) if inner[0] == "set_phys" else inner[1]
+        r = var.write(value, op[1])
+        if r is not None:
+            raise TypeError(f"write returned {r!r}")
+    elif k == "read":                     # var.read(fmt)
+        r = var.read(op[1])
+        if op[1] == "phys":
+            return fraction_obs(r)
+        if op[1] == "desc":
+            return S(r)
+        if op[1] == "raw":
+            if isinstance(r, bool) or not isinstance(r, int):
+                raise TypeError(f"raw is {type(r).__name__}")
+            return r
+        if r is not None:
+            raise TypeError(f"read({op[1]!r}) returned {r!r}")
     elif k == "poke":                     # the stored value changes by a route other than this accessor
         poke(op[1], op[2])
     elif k == "add_desc":                 # the application changes the table between two uses
@@ -331,14 +349,18 @@ def _impl(c):
         lo, hi = rng_of(c["dt"])
         f = frac(c["f"])
         raws, back = [], []
+        method = c.get("route") == "method"          # var.write(v, "phys") / var.read(...) instead of the attributes
         for raw in range(lo, hi + 1):
-            e = guarded(setattr, var, "phys", _sweep_value(raw, c))
+            if method:
+                e = guarded(var.write, _sweep_value(raw, c), "phys")
+            else:
+                e = guarded(setattr, var, "phys", _sweep_value(raw, c))
             if isinstance(e, Err):            # e.g. a tie at the end of the range rounds out of it
                 raws.append(e)
                 back.append(None)
                 continue
-            raws.append(var.raw)
-            back.append(fraction_obs(var.phys))
+            raws.append(var.read("raw") if method else var.raw)
+            back.append(fraction_obs(var.read("phys") if method else var.phys))
         return [raws, back]
     raise AssertionError(k)
 
@@ -426,6 +448,11 @@ def phys_back_check(v, f, raw, p, tag):
     return None
 
 
+FMT_SETTER = {"raw": "set_raw", "phys": "set_phys", "desc": "set_desc"}
+FMT_GETTER = {"raw": "get_raw", "phys": "get_phys", "desc": "get_desc"}
+FMT_CODE = {"raw": 0, "phys": 1, "desc": 2}
+
+
 def oracle(c, o):
     k = c["kind"]
     if isinstance(o, Err):
@@ -505,6 +532,11 @@ def oracle(c, o):
     for i, (op, (res, nbuf)) in enumerate(zip(c["ops"], o)):
         raw = dec(dt, buf[len(pre):len(pre) + n])
         what = f"step {i} {op} on {c['store']} variable of type 0x{dt:X} holding {raw:#x}"
+        # read(fmt) / write(value, fmt) must do what the attribute of that name does
+        if op[0] == "write":
+            op = op[2] if FMT_SETTER.get(op[1]) == op[2][0] else ["noop"]
+        elif op[0] == "read":
+            op = [FMT_GETTER[op[1]]] if op[1] in FMT_GETTER else ["noop"]
         kind = op[0]
         if kind.startswith("get") and nbuf != buf:
             return ("read_changed_store", f"{what}: buffer {buf.hex()} -> {nbuf.hex()}")
@@ -611,6 +643,8 @@ def gop(op):
     if k == "get_bits": return f"OGetBits {gkey(op[1])}"
     if k == "held_bits": return f"OHeldBits {gkey(op[1])} {gz(op[2])}"
     if k == "poke": return f"OPoke {gzlist(op[1])}"
+    if k == "write": return f"OWrite {FMT_CODE.get(op[1], 3)} ({gop(op[2])})"
+    if k == "read": return f"ORead {FMT_CODE.get(op[1], 3)}"
     raise ValueError(k)
 
 
@@ -634,7 +668,8 @@ def coq_case(c):
 def nontrivial(c):
     k = c["kind"]
     if k == "ops":
-        return any((op[0].startswith("set_") and op[0] != "set_raw") or op[0] == "held_bits" for op in c["ops"])
+        return any((op[0].startswith("set_") and op[0] != "set_raw") or op[0] == "held_bits" or
+                   (op[0] == "write" and op[1] in ("phys", "desc")) for op in c["ops"])
     if k == "bits_od": return c["v"] != 0 or c["raw"] != 0
     if k == "desc_od": return len(c["descs"]) >= 1
     if k == "phys_od": return c["v"][0] != 0 or c["raw"] != 0
@@ -1005,10 +1040,41 @@ def gen_sweeps(rng):
     return cases
 
 
+def via_methods(rng, ops, p):
+    """the same history through var.write(value, fmt) / var.read(fmt) instead of the attributes (each step with
+    probability p); now and then a format the methods do not know"""
+    out = []
+    for op in ops:
+        k = op[0]
+        if k in ("set_raw", "set_phys", "set_desc") and rng.random() < p:
+            out.append(["write", k[4:], op])
+        elif k in ("get_raw", "get_phys", "get_desc") and rng.random() < p:
+            out.append(["read", k[4:]])
+        else:
+            out.append(op)
+        if rng.random() < 0.03:
+            out.append(rng.choice([["read", "hex"], ["write", "Phys", ["set_raw", 1]], ["read", ""]]))
+    return out
+
+
 def gen_cases(rng, tier):
     cases = gen_bits(rng, tier) + gen_desc(rng, tier) + gen_phys(rng, tier)
+    # every second history with a .raw / .phys / .desc step also goes through read() / write()
+    j = 0
+    for c in cases:
+        if c["kind"] == "ops" and any(op[0][4:] in ("raw", "phys", "desc") and op[0][:3] in ("set", "get") for op in c["ops"]):
+            j += 1
+            if j % 2 == 0:
+                c["ops"] = via_methods(rng, c["ops"], 1.0 if j % 4 == 0 else 0.5)
     if tier == "thorough":
-        cases = cases[:2] + gen_sweeps(rng) + cases[2:]      # (kept away from the evidence samples: long observations)
+        sweeps = gen_sweeps(rng)
+        k = 0
+        for c in sweeps:
+            if c["kind"] == "phys_sweep":
+                k += 1
+                if k % 2 == 0:
+                    c["route"] = "method"
+        cases = cases[:2] + sweeps + cases[2:]      # (kept away from the evidence samples: long observations)
     return cases
 
 
